@@ -3,6 +3,17 @@
 // the vstd model (CBMC / ir2c builds) and against the real libstdc++ (replay on the real build, -DVF_REAL).
 #include <optional>
 #include <chrono>
+#ifdef VF_REAL /* some headers rely on includes made by their siblings; the real build includes them all up front */
+#include <atomic>
+#include <list>
+#include <map>
+#include <mutex>
+#include <numeric>
+#include <random>
+#include <string>
+#include <unordered_map>
+#include <vector>
+#endif
 #include <cappuccino/allow.hpp>
 #include <cappuccino/lock.hpp>
 #include <cappuccino/peek.hpp>
